@@ -192,7 +192,6 @@ impl Builder for WriteBatch {
     fn put(&mut self, key: &[u8], timestamp: u64, value: &[u8]) -> Result<(), SError> {
         check_key_len(key)?;
         check_value_len(value)?;
-        self.setsum.put(key, timestamp, value);
         let put = KeyValuePut {
             shared: 0,
             key_frag: key,
@@ -202,12 +201,13 @@ impl Builder for WriteBatch {
         let pa = stack_pack(KeyValueEntry::Put(put));
         check_batch_size_plus(&self.buffer, &pa)?;
         pa.append_to_vec(&mut self.buffer);
+        // Only entries that made it into the buffer count toward the setsum.
+        self.setsum.put(key, timestamp, value);
         Ok(())
     }
 
     fn del(&mut self, key: &[u8], timestamp: u64) -> Result<(), SError> {
         check_key_len(key)?;
-        self.setsum.del(key, timestamp);
         let del = KeyValueDel {
             shared: 0,
             key_frag: key,
@@ -216,6 +216,8 @@ impl Builder for WriteBatch {
         let pa = stack_pack(KeyValueEntry::Del(del));
         check_batch_size_plus(&self.buffer, &pa)?;
         pa.append_to_vec(&mut self.buffer);
+        // Only entries that made it into the buffer count toward the setsum.
+        self.setsum.del(key, timestamp);
         Ok(())
     }
 
@@ -280,8 +282,10 @@ impl<W: Write> LogBuilder<W> {
             return Err(empty_batch());
         }
         assert_ne!(write_batch.setsum, Setsum::default());
+        // Only batches that made it into the log count toward the setsum.
+        self._append(&write_batch.buffer)?;
         self.setsum += write_batch.setsum;
-        self._append(&write_batch.buffer)
+        Ok(())
     }
 
     fn _append(&mut self, buffer: &[u8]) -> Result<(), SError> {
